@@ -575,7 +575,11 @@ pub mod inner {
         where
             T: Clone,
         {
-            if self.is_contiguous() {
+            let (w, h) = self.dims;
+            // The fast path is only valid if the view covers its backing
+            // slice exactly; otherwise it would also overwrite row padding
+            // or surplus data that is not part of the view.
+            if self.stride == w && self.data.len() == w as usize * h as usize {
                 self.data.fill(val);
             } else {
                 self.rows_mut()
